@@ -84,6 +84,25 @@ class PeerSelect:
         return self._w.peer_select(list(rlist), list(wlist), timeout)
 
 
+class _LoggingTime:
+    """``time`` as seen by the logging module: virtual time()/time_ns(), the rest real."""
+
+    def __init__(self, world):
+        self._w = world
+
+    def time(self):
+        c = self._w.clock
+        return c.epoch + c.now
+
+    def time_ns(self):
+        c = self._w.clock
+        return int((c.epoch + c.now) * 1e9)
+
+    def __getattr__(self, name):
+        import time as _t
+        return getattr(_t, name)
+
+
 class World:
     PORT = 7111
 
@@ -139,6 +158,9 @@ class World:
         self._set(C, "time", self.fake_time)
         self._set(C, "os", fo)
         self._set(C, "print", self._print)
+        # LogRecord.created ends up inside RTMA_LOG payloads: take it from the virtual clock
+        import logging as _logging
+        self._set(_logging, "time", _LoggingTime(self))
 
     def _set(self, mod, name, value):
         missing = object()
